@@ -167,6 +167,7 @@ func runPortfolio(script string, dir string, name string, timeout time.Duration,
 			if err := os.WriteFile(sfile, []byte(st), 0o644); err == nil {
 				members = append(members, member{solvers[0], sfile, seed, true, solvers[0].name + "/strict"})
 				members = append(members, member{solvers[1], sfile, seed, true, solvers[1].name + "/strict"})
+				members = append(members, member{solvers[2], sfile, seed, true, solvers[2].name + "/strict"})
 			}
 		}
 	}
